@@ -10,7 +10,9 @@ RULE = ("(A) every ordered pair of the 97 elements of the radius table as a two-
         "cutoff-/+1e-3 and cutoff-/+2e-6, placed directly or so that the nearest image lies across a face, an edge or a "
         "corner of an orthorhombic or triclinic cell (LAMMPS orientation, arbitrarily rotated, or with the lattice vectors permuted / negated) (the number of faces crossed is measured after wrapping); "
         "(B) random structures of 2-14 atoms in no cell / orthorhombic / triclinic cells with widths above the largest "
-        "cutoff. Oracle: brute force over 125 images with the harness's own statement of the rule (radii and non-metal "
+        "cutoff; (C) pairs at cutoff-/+1e-3 in thin, strongly sheared cells (hardly wider than one bond, tilts of 0.3 - 1.0 of an edge), "
+        "half of them in cells whose edges exceed two of the longest possible bonds while one face spacing does not, the bond laid "
+        "across the thin direction so that its nearest image in space is not the nearest in fractional coordinates. Oracle: brute force over 125 images with the harness's own statement of the rule (radii and non-metal "
         "list read from the module as given data); pairs i<j, each once; shift+wrap and permutation relations; the same "
         "object detected again, again after being moved in place, and again after one of its cell vectors was lengthened in "
         "place (judged against the rule applied to the object's state at that time). "
